@@ -1180,13 +1180,10 @@ class VM:
             return obj.get(key_str)
 
         if isinstance(obj, JSTypedArray):
-            # Typed array index access
-            try:
-                idx = int(key_str)
-                if idx >= 0:
-                    return obj.get_index(idx)
-            except ValueError:
-                pass
+            # Typed array index access (canonical index strings only: "1", not " 1" or "+1")
+            idx = array_index(key_str)
+            if idx is not None:
+                return obj.get_index(idx)
             if key_str == "length":
                 return obj.length
             if key_str == "BYTES_PER_ELEMENT":
@@ -1202,12 +1199,9 @@ class VM:
 
         if isinstance(obj, JSArray):
             # Array index access
-            try:
-                idx = int(key_str)
-                if idx >= 0:
-                    return obj.get_index(idx)
-            except ValueError:
-                pass
+            idx = array_index(key_str)
+            if idx is not None:
+                return obj.get_index(idx)
             if key_str == "length":
                 return obj.length
             # Built-in array methods
@@ -1283,12 +1277,9 @@ class VM:
 
         if isinstance(obj, str):
             # String character access
-            try:
-                idx = int(key_str)
-                if 0 <= idx < len(obj):
-                    return obj[idx]
-            except ValueError:
-                pass
+            idx = array_index(key_str)
+            if idx is not None and idx < len(obj):
+                return obj[idx]
             if key_str == "length":
                 return len(obj)
             # String methods
@@ -2385,13 +2376,10 @@ class VM:
         key_str = to_string(key) if not isinstance(key, str) else key
 
         if isinstance(obj, JSTypedArray):
-            try:
-                idx = int(key_str)
-                if idx >= 0:
-                    obj.set_index(idx, value)
-                    return
-            except ValueError:
-                pass
+            idx = array_index(key_str)
+            if idx is not None:
+                obj.set_index(idx, value)
+                return
             obj.set(key_str, value)
             return
 
@@ -2405,11 +2393,8 @@ class VM:
                 return
             # Strict array mode: reject non-integer indices
             # Valid indices are integer strings in range [0, 2^32-2]
-            try:
-                idx = int(key_str)
-            except ValueError:
-                idx = -1
-            if idx >= 0 and str(idx) == key_str:
+            idx = array_index(key_str)
+            if idx is not None:
                 if idx > len(obj._elements):
                     # Stricter mode: no holes - only index == length may append
                     raise JSTypeError(
